@@ -42,8 +42,14 @@ def run(run, replay=None):
     for d in fgen.DEFECTS:
         for _ in range(25 if quick else 300):
             ids = rng.choice(sample_paths)
-            data, info = fgen.build_file(ids, rng, defect=d,
-                                         main_enc=rng.choice(['utf-8', 'utf-16', 'latin-1']))
+            # the defect on the first section it applies to, or (two of three times) on a section picked at random:
+            # every kind of section gets every defect that can apply to it
+            for _try in range(6):
+                at = None if _try == 5 or rng.random() < 0.34 else rng.randrange(len(ids))
+                data, info = fgen.build_file(ids, rng, defect=d, defect_at=at,
+                                             main_enc=rng.choice(['utf-8', 'utf-16', 'latin-1']))
+                if info['defect_applied']:
+                    break
             if not info['defect_applied']:
                 continue
             cases.append(rdriver.case(n, 'exact', data, cat))
